@@ -6,6 +6,8 @@ import os
 from vlib import Infra
 
 PIPELINES = {}
+B2 = "TLA+ model checking (TLC) of the transcribed algorithm + TLC-generated behaviours replayed on the implementation"
+B1 = "TLA+ trace validation (TLC) of recorded executions of the implementation + TLC model checking of the spec"
 
 
 def pipeline(pid):
@@ -50,125 +52,12 @@ def replay_cases(replay, key="case"):
     return out
 
 
-# ------------------------------------------------------------------------------------------------ C07
-@pipeline("C07")
-def c07(ctx, replay):
-    thorough = ctx.tier == "thorough"
-    ctx.rule = ("cases = every pair of ascending gene lists over innovation numbers 1..K with mutation numbers "
-                "{0,1,3} vs 1 on matching genes (emitted by MC_Compat at its terminal states, K=%d) plus structured long "
-                "pairs (Gen_Compat: prefixes, long excess tails, interleaved, disjoint ranges); each is measured on the "
-                "real code with both methods, both argument orders, 6 coefficient vectors, 3 scalings; non-trivial = "
-                "distinct case with at least one excess, one disjoint and one matching gene" % (5 if thorough else 4))
-    ctx.assumptions = ["genes sorted by innovation number (quantifier of C07)",
-                       "dyadic coefficients and mutation numbers so that every product is exact; 1e-12 relative "
-                       "tolerance only for the single division by the matching count"]
-    cases_file = ctx.path("compat_cases.ndjson")
-    if replay is not None:
-        write_lines(cases_file, replay_cases(replay))
-    else:
-        mc = ctx.tlc("MC_Compat", "MC_Compat_thorough.cfg" if thorough else "MC_Compat.cfg", timeout=1500)
-        spec_must_hold(mc, "MC_Compat")
-        fam = ctx.path("families.ndjson")
-        g = ctx.tlc("Gen_Compat", "Gen_Compat_thorough.cfg" if thorough else "Gen_Compat.cfg", env={"OUT": fam},
-                    workers=4, timeout=600, count=False)
-        spec_must_hold(g, "Gen_Compat")
-        ncases = cat_files(cases_file, [mc.cases_file, fam])
-        ctx.exhaustive = True
-        ctx.extra["scope"] = {"K": 5 if thorough else 4, "cases": ncases}
-    rep_file = ctx.path("compat_report.json")
-    _, rep, _ = ctx.vh(["replay-compat", "-cases", cases_file, "-out", rep_file], expect_report=rep_file)
-    ctx.add_report(rep, "compat", traces=rep.get("cases", 0))
-
-
-# ------------------------------------------------------------------------------------------------ C14
-@pipeline("C14")
-def c14(ctx, replay):
-    thorough = ctx.tier == "thorough"
-    ctx.rule = ("behaviours of MC_Depth: a network is built link by link (every link set over the node scope in BFS "
-                "mode, random insertion orders in simulation mode), then queried for its activation depth MaxQ times "
-                "with caps from Caps; each finished behaviour is replayed on a real network (built through the "
-                "network API and expressed from a genome) comparing result, error and leftover traversal marks after "
-                "every query; non-trivial = behaviour in which a query hit its cap")
-    ctx.assumptions = ["non-modular networks (quantifier of C14)", "5 s watchdog per behaviour decides termination"]
-    cases_file = ctx.path("depth_cases.ndjson")
-    if replay is not None:
-        write_lines(cases_file, replay_cases(replay))
-    else:
-        runs = []
-        mc = ctx.tlc("MC_Depth", "MC_Depth_thorough.cfg" if thorough else "MC_Depth.cfg", timeout=2400)
-        spec_must_hold(mc, "MC_Depth")
-        runs.append(mc.cases_file)
-        nh = ctx.tlc("MC_Depth", "MC_Depth_nohidden.cfg", timeout=600)
-        spec_must_hold(nh, "MC_Depth/nohidden")
-        runs.append(nh.cases_file)
-        sim = ctx.tlc("MC_Depth", "Sim_Depth.cfg", simulate="num=%d" % (4000 if thorough else 150), depth=40,
-                      extra=["-seed", str(ctx.seed)], timeout=1200)
-        spec_must_hold(sim, "MC_Depth/simulate")
-        runs.append(sim.cases_file)
-        n = cat_files(cases_file, runs)
-        ctx.exhaustive = True
-        ctx.extra["scope"] = {"behaviours": n, "bfs": "1 sensor, 2 hidden, %d output(s), all link sets%s" % (
-            2 if thorough else 1, " up to 7 links" if thorough else ""),
-            "simulate": "2 sensors, 3 hidden, 2 outputs, <= 14 links, any insertion order, 3 queries"}
-    rep_file = ctx.path("depth_report.json")
-    _, rep, _ = ctx.vh(["replay-depth", "-cases", cases_file, "-out", rep_file], expect_report=rep_file)
-    ctx.add_report(rep, "depth", traces=rep.get("cases", 0))
-
-
-# ------------------------------------------------------------------------------------------------ C19
-@pipeline("C19")
-def c19(ctx, replay):
-    thorough = ctx.tier == "thorough"
-    ctx.rule = ("MC_Stats: every integer series over Vals of length 1..MaxLen in every order, the empty series, and every "
-                "experiment of <= MaxTrials trials x <= MaxGens generations over the generation scope; each is built as a "
-                "real Floats / Experiment value (series at 3 power-of-two scalings) and all accessors are compared with the "
-                "exact rational values of the definitions; non-trivial = unsorted series, or experiment with both solved "
-                "and unsolved trials")
-    ctx.assumptions = ["finite series of integers scaled by powers of two (exact comparison for order statistics and sums, "
-                       "1e-12 relative for mean/variance)",
-                       "variance of a single element is undefined (NaN), as in the textbook sample variance",
-                       "ties for the best organism of a trial may be resolved either way"]
-    cases_file = ctx.path("stats_cases.ndjson")
-    if replay is not None:
-        write_lines(cases_file, replay_cases(replay))
-    else:
-        mc = ctx.tlc("MC_Stats", "MC_Stats_thorough.cfg" if thorough else "MC_Stats.cfg", timeout=2400)
-        spec_must_hold(mc, "MC_Stats")
-        n = cat_files(cases_file, [mc.cases_file])
-        ctx.exhaustive = True
-        ctx.extra["scope"] = {"cases": n}
-    rep_file = ctx.path("stats_report.json")
-    _, rep, _ = ctx.vh(["replay-stats", "-cases", cases_file, "-out", rep_file], expect_report=rep_file)
-    ctx.add_report(rep, "stats", traces=rep.get("cases", 0))
-
-
-# ------------------------------------------------------------------------------------------------ C20
-@pipeline("C20")
-def c20(ctx, replay):
-    thorough = ctx.tier == "thorough"
-    ctx.rule = ("behaviours of MC_Experiment: every script over {ok, solved, fail, cancel-while-evaluating, "
-                "cancel-and-solved} for the configured runs x generations, with and without an observer; each is run "
-                "through the real Experiment.Execute (sequential and parallel epoch executor, population of 8) with a "
-                "scripted evaluator and a recording observer and compared with the specification's evaluator log, "
-                "observer log, recorded trials, final population states and returned error; non-trivial = script that "
-                "contains an outcome other than ok")
-    ctx.assumptions = ["population identity is observed through *Population / *Organism pointers",
-                       "nothing is asserted about a finish notification for a trial aborted by an error"]
-    cases_file = ctx.path("exp_cases.ndjson")
-    if replay is not None:
-        write_lines(cases_file, replay_cases(replay))
-    else:
-        cfgs = ["MC_Experiment.cfg", "MC_Experiment_small.cfg", "MC_Experiment_wide.cfg", "MC_Experiment_nogens.cfg"]
-        if thorough:
-            cfgs.append("MC_Experiment_thorough.cfg")
-        files = []
-        for cfg in cfgs:
-            mc = ctx.tlc("MC_Experiment", cfg, timeout=2400)
-            spec_must_hold(mc, cfg)
-            files.append(mc.cases_file)
-        n = cat_files(cases_file, files)
-        ctx.exhaustive = True
-        ctx.extra["scope"] = {"behaviours": n, "configs": cfgs}
-    rep_file = ctx.path("exp_report.json")
-    _, rep, _ = ctx.vh(["replay-experiment", "-cases", cases_file, "-out", rep_file], expect_report=rep_file, timeout=3000)
-    ctx.add_report(rep, "experiment", traces=rep.get("cases", 0))
+def load_all():
+    """Import every bin/pipe_*.py module; each registers its pipelines with @pipeline and describes its checks in CHECKS."""
+    import glob
+    import importlib
+    mods = []
+    here = os.path.dirname(os.path.abspath(__file__))
+    for f in sorted(glob.glob(os.path.join(here, "pipe_*.py"))):
+        mods.append(importlib.import_module(os.path.basename(f)[:-3]))
+    return mods
